@@ -668,6 +668,48 @@ func do_YIELD_FROM(vm *Vm, arg int32) error {
 	return nil
 }
 
+// A generator suspended in "yield from" passes an exception thrown
+// into it on to the sub-iterator first: GeneratorExit closes the
+// sub-iterator and is then raised here; any other exception is thrown
+// into it (when it has a throw method) and what the sub-iterator does
+// with it decides: it yields again (nil is returned with why ==
+// whyYield), it finishes (its StopIteration value becomes the value of
+// the yield from expression, nil is returned) or it raises (that error
+// is returned to be raised here).
+func (vm *Vm) throwYieldFrom(exc *py.Exception) error {
+	if OpCode(vm.frame.Code.Code[vm.frame.Lasti]) != YIELD_FROM {
+		return exc
+	}
+	x := vm.TOP()
+	if py.IsException(py.GeneratorExit, exc) {
+		if close, err := py.GetAttrString(x, "close"); err == nil {
+			if _, err = py.Call(close, nil, nil); err != nil {
+				return err
+			}
+		}
+		return exc
+	}
+	throw, err := py.GetAttrString(x, "throw")
+	if err != nil {
+		return exc
+	}
+	retval, err := py.Call(throw, py.Tuple{exc}, nil)
+	if err == nil {
+		// still delegating: the instruction repeats at the next resumption
+		vm.retval = retval
+		vm.frame.Yielded = true
+		vm.why = whyYield
+		return nil
+	}
+	// the sub-iterator is finished: leave the YIELD_FROM instruction
+	vm.frame.Lasti++
+	if py.IsException(py.StopIteration, err) {
+		vm.SET_TOP(stopIterationValue(err))
+		return nil
+	}
+	return err
+}
+
 // Pops TOS and yields it from a generator.
 func do_YIELD_VALUE(vm *Vm, arg int32) error {
 	vm.retval = vm.POP()
@@ -1858,7 +1900,7 @@ func RunFrame(frame *py.Frame) (res py.Object, err error) {
 		if frame.Throw != nil {
 			// generator.throw(): the frame is resumed by raising the
 			// exception at the yield where it was suspended
-			err, frame.Throw = frame.Throw, nil
+			err, frame.Throw = vm.throwYieldFrom(frame.Throw), nil
 		} else {
 			opcode = OpCode(opcodes[frame.Lasti])
 			verifPc := frame.Lasti
